@@ -78,10 +78,6 @@ func mpCases() []copyCase {
 		build: func(e *env, cfg string) interface{} { p := multiparty.NewGaloisKeyGenProtocol(e.p); return &p },
 		copy:  func(e *env, o interface{}) interface{} { p := o.(*multiparty.GaloisKeyGenProtocol).ShallowCopy(); return &p },
 		ops: []op{{"2-party GKG + rotate", func(e *env, o interface{}) []byte {
-			if e.p.PCount() == 0 {
-				// GaloisKeyGenProtocol.GenShare dereferences RingP unconditionally: owned by C14, not a copy issue
-				return []byte("n/a without P")
-			}
 			return try(func() []byte {
 				p0 := o.(*multiparty.GaloisKeyGenProtocol)
 				p1 := multiparty.NewGaloisKeyGenProtocol(e.p)
